@@ -21,6 +21,20 @@ class Obj(object):
         return "<%s>" % self.name
 
 
+class FalsyError(Exception):
+    """An exception whose truth value is False (e.g. an aggregate error with no details)."""
+
+    def __bool__(self):
+        return False
+
+    def __len__(self):
+        return 0
+
+
+class FalsyObj(list):
+    """A falsy return value with an identity."""
+
+
 class Harness(object):
     audited = (TPFILE,)
 
@@ -31,6 +45,12 @@ class Harness(object):
              "EventData.raise_exception", "EventData.is_set") if opcode else ())
         self.R = Obj("R")
         self.X = ValueError("task-failed")
+        if outcome == "raise-falsy":
+            self.X = FalsyError()
+            self.outcome = outcome = "raise"
+        elif outcome == "return-falsy":
+            self.R = FalsyObj()
+            self.outcome = outcome = "return"
         self.calls = {}  # registration -> list of argument tuples
         self.log = []
         self.body_entered = 0
@@ -108,7 +128,7 @@ class Harness(object):
                 self.viols.append(("C16/result-timeout-after-completion", "result(5) raised OSError although the task had finished before the call"))
             if sched.S.now - t0 < 5:
                 self.viols.append(("C16/result-timeout-early", "result(5) raised OSError after %.1f virtual seconds" % (sched.S.now - t0)))
-        except ValueError as ex:
+        except (ValueError, FalsyError) as ex:
             o.append(("result(5)", "exc", ex is self.X))
             if ex is not self.X:
                 self.viols.append(("C16/result-not-the-raised-exception", "result(5) raised %r" % (ex,)))
@@ -123,7 +143,7 @@ class Harness(object):
                 r = f.result()
                 if self.outcome == "raise" or r is not self.R:
                     self.viols.append(("C16/result-inconsistent-after-completion", "result() returned %r (outcome %s)" % (r, self.outcome)))
-            except ValueError as ex:
+            except (ValueError, FalsyError) as ex:
                 if self.outcome != "raise" or ex is not self.X:
                     self.viols.append(("C16/result-inconsistent-after-completion", "result() raised %r (outcome %s)" % (ex, self.outcome)))
             except OSError:
@@ -191,7 +211,7 @@ class Harness(object):
             r = f1.result(1)
             if self.outcome == "raise" or r is not self.R:
                 self.viols.append(("C16/result-changed-by-callback", "result() returned %r" % (r,)))
-        except ValueError as ex:
+        except (ValueError, FalsyError) as ex:
             if self.outcome != "raise" or ex is not self.X:
                 self.viols.append(("C16/result-changed-by-callback", "result() raised %r" % (ex,)))
         except OSError:
@@ -219,6 +239,23 @@ class Harness(object):
             v.append(("C16/execute-did-not-reraise-task-exception", "execute() raised/returned %r" % (self.exec_raised,)))
         if self.outcome == "return" and self.exec_raised is not None:
             v.append(("C16/callback-exception-escaped-execute", "execute() raised %r although the task returned" % (self.exec_raised,)))
+        # the stored outcome, read through the public API while everything is parked
+        try:
+            r = self.fut.result(0)
+            if self.outcome == "raise":
+                v.append(("C16/result-swallowed-exception", "result() returned %r although the task raised %r" % (r, self.X)))
+            elif r is not self.R:
+                v.append(("C16/result-not-the-returned-object", "result() returned %r" % (r,)))
+        except OSError:
+            v.append(("C16/not-done-after-completion", "result(0) timed out after execute() completed"))
+        except Exception as ex:
+            if self.outcome != "raise" or ex is not self.X:
+                v.append(("C16/result-not-the-raised-exception", "result() raised %r (outcome %s)" % (ex, self.outcome)))
+        try:
+            if not self.fut.done():
+                v.append(("C16/not-done-after-completion", "done() is False after execute() completed"))
+        except Exception as ex:
+            v.append(("C16/done-raises", "done() raised %r" % (ex,)))
         want_args = (self.R, None) if self.outcome == "return" else (None, self.X)
         exact_one = {
             "reg||exec": ["r1"], "reg;exec": ["r1"], "exec;reg": ["r1"], "reg;reg;exec": ["r1"], "exec;reg;reg": ["r1", "r2"],
@@ -263,6 +300,11 @@ def jobs(tier):
                 else:
                     K = (3 if cb == "record" else 2) if three else 4
                 out.append((("checks.c16", "make", (p, outcome, cb)), {"K": K, "T": 1 if p.startswith("obs") else 0}, "%s/%s/%s" % (p, outcome, cb)))
+    for outcome in ("return-falsy", "raise-falsy"):
+        for p in ("exec;reg", "reg;exec", "pool"):
+            out.append((("checks.c16", "make", (p, outcome, "record")), {"K": 1, "T": 0}, "%s/%s/record" % (p, outcome)))
+        out.append((("checks.c16", "make", ("obs||exec", outcome, "record")), {"K": 2 if tier == "quick" else 3, "T": 1}, "obs||exec/%s/record" % outcome))
+        out.append((("checks.c16", "make", ("reg||exec", outcome, "record")), {"K": 2 if tier == "quick" else 3, "T": 0}, "reg||exec/%s/record" % outcome))
     if tier == "thorough":
         for outcome in ("return", "raise"):
             for p in ("reg||exec", "obs||exec"):
@@ -284,7 +326,7 @@ META = {
     "serial_legs": ("schedules",),
     "technique": "stateless model checking of the real FutureResult under a controlled scheduler: exhaustive enumeration of thread schedules "
     "with iterative preemption bounding at source-line (thorough: opcode) granularity, virtual clock for result(timeout)",
-    "rule": "harness = program (registrar/executor/observer threads, sequential baselines, one-worker pool) x task outcome {return, raise} x "
+    "rule": "harness = program (registrar/executor/observer threads, sequential baselines, one-worker pool) x task outcome {return, raise, falsy return value, falsy exception object} x "
     "callback kind {records, raises, wrong arity}; every schedule with at most K preemptions (quick: K=3 for two threads, K=2 for three; "
     "thorough: 4 / 3, plus opcode granularity K=2) and T<=1 early timer firing; an execution is non-trivial when it has a choice point; "
     "distinct by (harness, choice sequence)",
